@@ -923,7 +923,7 @@ Qed.
 
 (* ------------------------------------------------------------------ all the steps of replicas that are invisible to the clients *)
 Lemma simC_internal : forall s p ch s', SimC s -> isrep p -> step_replica cfg ch s p = Ok s' ->
-  pcr s p <> HandlePrimary -> pcr s p <> SndResp -> pcr s' p <> HandlePrimary -> SimC s'.
+  pcr s p <> HandlePrimary -> pcr s p <> SndResp -> (pcr s p = RcvMsg -> pcr s' p <> HandlePrimary) -> SimC s'.
 Proof.
   intros s p ch s' (IA & w & t & mo & IB & Hrun & Hproj & R) Hp Hs N1 N2 N3.
   assert (Hstep : step cfg s (Ev p ch) = Ok s').
@@ -937,7 +937,7 @@ Proof.
     - split; [eapply (invB_syncPrimary cfg w s p ch s'); eauto | eapply internal_syncPrimary; eauto].
     - split; [eapply (invB_sndSyncReqLoop cfg w s p ch s'); eauto | eapply internal_sndSyncReqLoop; eauto].
     - split; [eapply (invB_rcvSyncRespLoop cfg w s p ch s'); eauto | eapply internal_rcvSyncRespLoop; eauto].
-    - split; [eapply (invB_rcvMsg cfg w s p ch s'); eauto | eapply internal_rcvMsg; eauto].
+    - split; [eapply (invB_rcvMsg cfg w s p ch s'); eauto | eapply internal_rcvMsg; eauto; apply N3; exact Epc].
     - split; [eapply (invB_handleBackup cfg w s p ch s'); eauto | eapply internal_handleBackup; eauto].
     - split; [eapply (invB_sndReplicaReqLoop cfg w s p ch s'); eauto | eapply internal_sndReplicaReqLoop; eauto].
     - split; [eapply (invB_rcvReplicaRespLoop cfg w s p ch s'); eauto | eapply internal_rcvReplicaRespLoop; eauto].
@@ -1569,7 +1569,7 @@ Proof.
     destruct (ch_alt ch) eqn:Ealt; [exfalso; apply Hnr; auto|]. cbn [negb] in Hs.
     unfold link_recv in Hs. destruct (negb (enabled _)); [discriminate|].
     destruct (queue (net s c0 RESP)) as [|r rest] eqn:Eq; [discriminate|].
-    destruct Hcc as [(_ & _ & _ & Q4 & _)|[(_ & _ & _ & _ & _ & H6 & _)|[(_ & _ & _ & _ & _ & S6 & _)|[(R1 & v & rb & rt & R2 & Hst & Hmatch)|([X1 _] & _)]]]]; try discriminate.
+    destruct Hcc as [(_ & _ & _ & Q4 & _)|[(_ & _ & _ & _ & _ & H6 & _)|[(_ & _ & _ & _ & _ & S6 & _)|[(R1 & v & rb & rt & R2 & Hst & Hmatch)|([X1 _] & _)]]]]; try discriminate; try (rewrite Eq in X1; discriminate).
     inversion R2; subst r rest. clear R2. simp_st. rewrite Nat.eqb_refl in Hs. cbn [negb] in Hs.
     rewrite Ecm in Hs. cbn [bindT] in Hs.
     assert (Hc : exists c1, Ok (add_hist (set_cl (set_cout (set_net s (upd_net (net s) c0 RESP (mkLink [] (enabled (net s c0 RESP))))) (Some c1)) c0 (c_set_pc (cl s c0) ClientLoop)) (HRes c0 c1)) = Ok s' /\ c1 = v).
@@ -1601,4 +1601,87 @@ Proof.
   - discriminate.
 Qed.
 
+(* ------------------------------------------------------------------ the simulation *)
+Definition retry_step (s : state) (e : event) : Prop :=
+  match e with Ev p ch => is_client cfg p = true /\ c_pc (cl s p) = RcvResp /\ ch_alt ch = true end.
+
+Lemma rpc_dec : forall a b : rpc, {a = b} + {a <> b}.
+Proof. decide equality. Qed.
+
+Lemma simC_step : forall s e s', SimC s -> step cfg s e = Ok s' -> ~ retry_step s e -> SimC s'.
+Proof.
+  intros s [p ch] s' HS Hs Hnr. unfold step in Hs.
+  destruct (is_replica cfg p) eqn:Er.
+  - apply (isrep_iff cfg) in Er.
+    destruct (rpc_dec (pcr s p) HandlePrimary) as [E1|N1]; [eapply simC_handlePrimary; eauto|].
+    destruct (rpc_dec (pcr s p) SndResp) as [E2|N2]; [eapply simC_sndResp; eauto|].
+    destruct (rpc_dec (pcr s p) RcvMsg) as [E3|N3].
+    + destruct (rpc_dec (pcr s' p) HandlePrimary) as [E4|N4]; [eapply simC_rcvMsg_client; eauto|].
+      eapply simC_internal; eauto.
+    + eapply simC_internal; eauto.
+  - destruct (is_client cfg p) eqn:Ec; [|discriminate].
+    eapply simC_client_step; eauto. intros [A B]. apply Hnr. cbn. auto.
+Qed.
+
+Lemma simC_init : forall input, Forall input_ok input -> SimC (init cfg input).
+Proof.
+  intros input Hin. split; [apply init_invA; exact Hin|].
+  exists (mkWit 0 None (fun _ => EmptyString) None), [], mon_init.
+  split; [apply init_invB|]. split; [reflexivity|]. split; [reflexivity|].
+  assert (NO : ~ someold (mkWit 0 None (fun _ => EmptyString) None) (init cfg input)).
+  { intros (r & _ & (H & _)). cbn in H. lia. }
+  constructor.
+  - intros _ k. reflexivity.
+  - intros SO. contradiction.
+  - intros _ SO. contradiction.
+  - intros c Hc. unfold cinvC. cbn. split; [|reflexivity]. split; [reflexivity|]. intros _. split; [reflexivity|].
+    intros (_ & Hsv & _). cbn in Hsv. exact Hsv.
+  - intros c _. reflexivity.
+  - intros _ m Hin0. destruct Hin0.
+  - intros _ Hsv. cbn in Hsv. destruct Hsv.
+Qed.
+
 End LC.
+
+(* the hypothesis: no client ever gives up waiting for an answer and re-sends its request *)
+Fixpoint no_resend (cfg : config) (s : state) (evs : list event) : Prop :=
+  match evs with
+  | [] => True
+  | e :: evs' => ~ retry_step cfg s e /\ match step cfg s e with Ok s' => no_resend cfg s' evs' | _ => True end
+  end.
+
+Lemma simC_exec : forall cfg evs s s', SimC cfg s -> exec cfg s evs = Some s' -> no_resend cfg s evs -> SimC cfg s'.
+Proof.
+  intros cfg evs. induction evs as [|e evs IH]; intros s s' HS He Hn; cbn in He.
+  - inversion He; subst. exact HS.
+  - destruct Hn as [Hn1 Hn2]. destruct (step cfg s e) as [s1| | |] eqn:Es; try discriminate.
+    apply (IH s1 s'); auto. eapply simC_step; eauto.
+Qed.
+
+Lemma linearizable_no_resend_lemma : forall cfg input evs s,
+  Forall input_ok input -> exec cfg (init cfg input) evs = Some s -> no_resend cfg (init cfg input) evs ->
+  linearizable (hist s).
+Proof.
+  intros cfg input evs s Hin He Hn.
+  destruct (simC_exec cfg evs _ s (simC_init cfg input Hin) He Hn) as (_ & w & t & mo & _ & R1 & R2 & _).
+  rewrite <- R2. eapply mon_linearizable. exact R1.
+Qed.
+
+(* decidable form of the hypothesis (used by the non-vacuity example) *)
+Definition retry_step_b (cfg : config) (s : state) (e : event) : bool :=
+  match e with Ev p ch => is_client cfg p && (match c_pc (cl s p) with RcvResp => true | _ => false end) && ch_alt ch end.
+
+Fixpoint no_resend_b (cfg : config) (s : state) (evs : list event) : bool :=
+  match evs with
+  | [] => true
+  | e :: evs' => negb (retry_step_b cfg s e) && match step cfg s e with Ok s' => no_resend_b cfg s' evs' | _ => true end
+  end.
+
+Lemma no_resend_b_sound : forall cfg evs s, no_resend_b cfg s evs = true -> no_resend cfg s evs.
+Proof.
+  intros cfg evs. induction evs as [|[p ch] evs IH]; intros s H; [exact I|].
+  cbn [no_resend_b no_resend] in *.
+  apply andb_true_iff in H. destruct H as [H1 H2]. split.
+  - intros (A & B & C). unfold retry_step_b in H1. rewrite A, B, C in H1. discriminate.
+  - destruct (step cfg s (Ev p ch)); try exact I. apply IH. exact H2.
+Qed.
